@@ -163,6 +163,12 @@ def enum_cases(tier):
                     yield {"spec": spec, "spec2": SPEC2, "ops": [op]}
 
 
+def enum_two_step(tier):
+    from checks.c01_wellformed import enum_cases as two_step
+
+    yield from two_step(tier)
+
+
 @st.composite
 def hyp_cases(draw, tier):
     typed = draw(st.booleans())
@@ -174,5 +180,6 @@ def hyp_cases(draw, tier):
 
 PARTS = [
     Part("single-steps", run_history, enum=enum_cases),
+    Part("two-step-clones", run_history, enum=enum_two_step),
     Part("histories", run_history, strategy=hyp_cases, n={"quick": 600, "thorough": 120000}),
 ]
